@@ -8,6 +8,7 @@ mod terms;
 mod o_lists;
 mod o_unify;
 mod o_solver;
+mod o_ref;
 mod o_compare;
 mod o_listops;
 mod o_globals;
@@ -55,6 +56,7 @@ fn oracles() -> Vec<(&'static str, Enumerate, Check)> {
         ("c09_program", o_unify::enum_anon_program, o_unify::check_anon_program),
         ("c05_reask", o_solver::enum_reask, o_solver::check_reask),
         ("c03_not", o_solver::enum_not, o_solver::check_not),
+        ("c02_cut", o_solver::enum_cut, o_solver::check_cut),
     ]
 }
 
